@@ -90,7 +90,7 @@ def body_cli(case, rec):
         mp.write_text(remap.map_agp_text(case))
         out = d / "out" / "x.1.fa"
         out.parent.mkdir()
-        res = remap.run_cli_inprocess(["-a", src, "-p", mp, "-o", out])
+        res = remap.run_cli_inprocess(["-a", src, "-p", mp, "-o", out], fasta_buffer=case.get("fasta_buffer"))
         if res.exit_code != 0:
             raise Violation(f"pretext-to-asm failed on a model map: exit {res.exit_code} {type(res.exception).__name__}: {res.exception}")
         fa_files = sorted(f for f in out.parent.iterdir() if f.name.endswith(".fa"))
@@ -178,7 +178,8 @@ def cli_cases(draw):
     t = draw(gen.texel(small=True))
     inp = fasta_input_plain(f)
     m = draw(gen.model_map(inp, t))
-    return {"fasta": f, "t": gen.texel_str(t), "input": inp, "map": m}
+    return {"fasta": f, "t": gen.texel_str(t), "input": inp, "map": m,
+            "fasta_buffer": draw(st.sampled_from([None, 1, 7, 50, 199, 200]))}
 
 
 SUBS = [
